@@ -204,6 +204,19 @@ _ADDED_E = {
 }
 for _k, _t in _ADDED_E.items():
     CLAIMS[_k]['text'] = CLAIMS[_k]['text'].rstrip() + _t
+_ADDED_F = {
+    'C06': ' page_race: two devices page the same third device in one turn of the event loop (BR/EDR), also under explored delays.',
+    'C09': ' Scripts that leave holes in the identifier space (3-4 channels, one or two closed by either end) before an open that needs two identifiers at once.',
+    'C10': ' notify is also run with the fixed and the enhanced bearer of the connection at different ATT_MTUs (517/23, 517/48, 185/24, 23/185, 48/517): each PDU is within the ATT_MTU of the bearer it is sent on.',
+    'C11': ' The link state "authenticated but not encrypted" is part of both tiers.',
+    'C13': ' Without negotiated bonding the two key stores may not differ in holding keys (one side only); during the second pairing the key the peripheral host answers the key request with must be the one the central encrypts with.',
+    'C14': ' An address whose random part the implementation did not draw as bytes is judged by the specification alone (prand top bits 01, random part neither all zeros nor all ones, hash = ah(IRK, prand), resolves under its IRK only).',
+    'C16': ' Procedures last_words_le / last_words_classic: both applications send a PDU on the connection from their disconnection listener; nothing of it may stay queued.',
+    'C17': ' AVDTP bed: the reference request also configures the idle end point (and releases it again), unless what was sent may itself have configured it (independent decode). Classic signalling bed: a reactive raw peer opens a channel, asks for a configuration option bumble does not implement (six forms), answers the victim\'s own Configure Request and asks again with the MTU option alone: the corrected request must be answered with success.',
+    'C20': ' Stream plans with writes of no bytes among the others (the stream is unchanged and drain() returns).',
+}
+for _k, _t in _ADDED_F.items():
+    CLAIMS[_k]['text'] = CLAIMS[_k]['text'].rstrip() + _t
 CLAIMS['C19']['note'] = 'One recorded finding: the AVCTP assembler expects a PID in continue/end packets (bumble\'s own test asserts it). The SDP server state shared by all clients, recorded earlier, was repaired (82af15d).'
 
 NOT_CLAIMED = {}
